@@ -388,7 +388,7 @@ end
 
 /-- close `R w'` from `h : R w` through any composition of library steps that never wakes the waiters of a process
     end; the numeral bounds the depth -/
-syntax "ec_peel " ident ident ident num : tactic
+syntax "ec_peel " term:max term:max term:max num : tactic
 open Lean in
 macro_rules
   | `(tactic| ec_peel $hR $hA $h $n) => do
